@@ -203,7 +203,7 @@ def record_run(conf: dict, n_total=32, seed=0, label="", posterior_flags=None, s
                     kw.update(ess_trim=fl[4], bins_trim=fl[5])
                 try:
                     out = sampler.posterior(**kw)
-                    rec.posterior_event(fl[:4], out, c["evaluation"] == "blobs")
+                    rec.posterior_event(fl[:4], out, c["evaluation"] == "blobs", ess_trim=(fl[4] if len(fl) > 4 else 0.99))
                 except Exception as ex:
                     rec.raised(ex)
                     break
